@@ -935,7 +935,7 @@ const CHUNK: usize = 32;
 pub fn run(ctx: &Ctx) -> Report {
     let pts = enumerated(ctx.quick());
     let ne = ((pts.len() + CHUNK - 1) / CHUNK) as u64;
-    let nrand = ctx.vol(12_000, 160_000);
+    let nrand = ctx.vol(12_000, 640_000);
     let stats = par_run(ctx, TAG, ne + nrand, |u, rng, st| {
         let mut acc = Acc::new();
         if u < ne {
